@@ -16,6 +16,7 @@ pub mod c11;
 pub mod c12;
 pub mod c13;
 pub mod c14;
+pub mod c15;
 pub mod c16;
 pub mod c17;
 pub mod c18;
@@ -51,6 +52,7 @@ pub fn run(id: &str, rep: &mut Report) -> bool {
         "C12" => c12::run(rep),
         "C13" => c13::run(rep),
         "C14" => c14::run(rep),
+        "C15" => c15::run(rep),
         "C16" => c16::run(rep),
         "C17" => c17::run(rep),
         "C18" => c18::run(rep),
@@ -77,6 +79,7 @@ pub fn replay(id: &str, case: &Value) -> Result<Vec<(String, String)>, String> {
         "C12" => c12::replay(case),
         "C13" => c13::replay(case),
         "C14" => c14::replay(case),
+        "C15" => c15::replay(case),
         "C16" => c16::replay(case),
         "C17" => c17::replay(case),
         "C18" => c18::replay(case),
